@@ -28,6 +28,7 @@ type sut struct {
 	byteExact bool
 	trace     []string
 	strict    bool // durable only: no limit-truncating reads, no resumption from event offsets
+	sibling   *stores.Opened
 	tainted   bool // durable only: a read was truncated to its limit (recorded finding: its next offset skips events)
 }
 
@@ -67,6 +68,13 @@ func TestC10(t *testing.T) {
 				}
 				ss[i] = &sut{o: o, ref: reflog.New(), fam: family(kind), saved: map[string]ebu.Offset{}, byteExact: family(kind) != "durable"}
 				ss[i].strict = ss[i].fam == "durable" && c%2 == 0
+				if o.Reopen != nil && c%3 != 0 {
+					if sib, err := o.Reopen(); err == nil {
+						ss[i].sibling = sib
+					} else {
+						t.Fatalf("reopen %s: %v", kind, err)
+					}
+				}
 			}
 			nOps := 30 + rng.IntN(120)
 			if rng.IntN(6) == 0 {
@@ -116,6 +124,9 @@ func TestC10(t *testing.T) {
 			// final: the whole log by a chain of reads with varying limits, from the oldest offset
 			for _, s := range ss {
 				chain(ctx, rng, s, viol, fl)
+				if s.sibling != nil {
+					s.sibling.Close()
+				}
 				s.o.Close()
 				s.o.Remove()
 			}
@@ -142,7 +153,11 @@ func doAppend(ctx context.Context, rng *rand.Rand, s *sut, viol violFn, fl *flag
 	if e.Time.Location().String() != "UTC" && !e.Time.IsZero() {
 		fl.nonUTC = true
 	}
-	off, err := s.o.Store.Append(ctx, &ebu.Event{Type: e.Type, Data: e.Data, Timestamp: e.Time})
+	w := s.o.Store
+	if s.sibling != nil && rng.IntN(3) == 0 {
+		w = s.sibling.Store // another store object on the same durable state
+	}
+	off, err := w.Append(ctx, &ebu.Event{Type: e.Type, Data: e.Data, Timestamp: e.Time})
 	s.trace = append(s.trace, fmt.Sprintf("Append(type=%q data=%.40q ts=%s) -> %q err=%v", clip(e.Type), string(e.Data), e.Time.Format("2006-01-02T15:04:05.999999999Z07:00:00 MST"), off, err))
 	if err != nil {
 		viol(s, "append-rejected-valid-event", "", fmt.Sprintf("Append of a valid event failed: %v", err))
